@@ -59,7 +59,18 @@ class StreamReader {
   }
 
   Status<void> Skip(std::size_t padding_bytes) {
-    stream_.seekg(padding_bytes, std::ios_base::cur);
+    // Consume the bytes instead of seeking: a seek past the end of the data is
+    // not reported as an error by every stream type, which would let truncated
+    // input pass as valid.
+    const std::size_t kMaxChunk = 1U << 30;
+    while (padding_bytes > 0) {
+      const std::size_t chunk =
+          padding_bytes < kMaxChunk ? padding_bytes : kMaxChunk;
+      stream_.ignore(static_cast<std::streamsize>(chunk));
+      if (static_cast<std::size_t>(stream_.gcount()) != chunk)
+        return ErrorStatus::StreamError;
+      padding_bytes -= chunk;
+    }
     return ReturnStatus();
   }
 
